@@ -242,6 +242,29 @@ def emit_def(name, planes, nargs, mdim, struct):
     return d + t, len(lines)
 
 
+def emit_dispatch(name, entries, mdim, struct, fallback_from_first=True):
+    """`name code a b c d`: if-chain over LUT codes to the per-op definitions, plus its homomorphism lemma"""
+    ty = 'α' if mdim == 1 else f'{struct} α'
+    ff = 'BAlg.ff' if mdim == 1 else ('⟨BAlg.ff, BAlg.ff⟩' if mdim == 2 else '⟨BAlg.ff, BAlg.ff, BAlg.ff⟩')
+    d = f'def {name} {{α : Type}} [BAlg α] (code : Nat) (a b c d : {ty}) : {ty} :=\n'
+    for n, c, fn in entries:
+        d += f'  if code = {c} then {fn} a b c d else\n'
+    d += f'  {ff}\n'
+    hf = 'h.f' if mdim == 1 else f'h.f{mdim}'
+    homs = ', '.join(f'{fn}_hom' for _, _, fn in entries)
+    d += (f'theorem {name}_hom {{α β : Type}} [BAlg α] [BAlg β] (h : BHom α β) (code : Nat) (a b c d : {ty}) :\n'
+          f'    {hf} ({name} code a b c d) = {name} code ({hf} a) ({hf} b) ({hf} c) ({hf} d) := by\n'
+          f'  unfold {name}\n')
+    for k, (n, c, fn) in enumerate(entries):
+        d += (f'  by_cases h{k} : code = {c}\n'
+              f'  · rw [if_pos h{k}, if_pos h{k}]; exact {fn}_hom h a b c d\n'
+              f'  rw [if_neg h{k}, if_neg h{k}]\n')
+    d += '  simp only [BHom.f2, BHom.f3, h.map_ff]\n'
+    codes = ', '.join(str(c) for _, c, _ in entries)
+    d += f'def {name}_codes : List Nat := [{codes}]\n'
+    return d
+
+
 def write_if_changed(path, text):
     os.makedirs(os.path.dirname(path), exist_ok=True)
     try:
@@ -255,7 +278,7 @@ def write_if_changed(path, text):
 
 HEADER = '-- GENERATED by gen/extract_ops.py from /repo working tree. Do not edit.\nimport KyupyVerif.Model.BAlg\nimport KyupyVerif.Model.Prim\nset_option linter.unusedSimpArgs false\nset_option linter.unusedVariables false\n\nnamespace KV.Gen\nopen KV\n\n'
 
-N8_PARTS = 4
+N8_PARTS = 8
 
 
 def generate(out_dir=GEN_DIR):
@@ -288,6 +311,8 @@ def generate(out_dir=GEN_DIR):
     for path, tag in (('njit', 'op2nTable'), ('plain', 'op2pTable'), ('cb', 'op2cTable')):
         t += (f'def {tag} {{α : Type}} [BAlg α] : List (String × Nat × (α → α → α → α → α)) := [\n  '
               + ',\n  '.join(f'("{n}", {c}, {d})' for n, c, d in tabs[path]) + ']\n\n')
+    for path, tag in (('njit', 'sem2n'), ('plain', 'sem2p'), ('cb', 'sem2c')):
+        t += emit_dispatch(tag, tabs[path], 1, None) + '\n'
     t += 'end KV.Gen\n'
     write_if_changed(os.path.join(out_dir, 'Ops2.lean'), t)
 
@@ -304,10 +329,12 @@ def generate(out_dir=GEN_DIR):
         t += d + '\n'
         tab.append((name, code, f'op4_{name}'))
     t += ('def op4Table {α : Type} [BAlg α] : List (String × Nat × (P2 α → P2 α → P2 α → P2 α → P2 α)) := [\n  '
-          + ',\n  '.join(f'("{n}", {c}, {d})' for n, c, d in tab) + ']\n\nend KV.Gen\n')
+          + ',\n  '.join(f'("{n}", {c}, {d})' for n, c, d in tab) + ']\n\n')
+    t += emit_dispatch('sem4', tab, 2, 'P2') + '\nend KV.Gen\n'
     write_if_changed(os.path.join(out_dir, 'Ops4.lean'), t)
 
     # --- m = 8, split for parallel kernel checking
+    all8 = []
     parts = [[] for _ in range(N8_PARTS)]
     for k, (name, code) in enumerate(prims):
         parts[k % N8_PARTS].append((name, code))
@@ -327,9 +354,15 @@ def generate(out_dir=GEN_DIR):
             info['ssa_lines'] += n
             t += d + '\n'
             tab.append((name, code, f'op8_{name}'))
+        all8 += tab
         t += (f'def op8Table{pi} {{α : Type}} [BAlg α] : List (String × Nat × (P3 α → P3 α → P3 α → P3 α → P3 α)) := [\n  '
               + ',\n  '.join(f'("{n}", {c}, {d})' for n, c, d in tab) + ']\n\nend KV.Gen\n')
         write_if_changed(os.path.join(out_dir, f'Ops8_{pi}.lean'), t)
+
+    t = HEADER.replace('import KyupyVerif.Model.Prim\n', 'import KyupyVerif.Model.Prim\n' + ''.join(f'import KyupyVerif.Gen.Ops8_{i}\n' for i in range(N8_PARTS)))
+    all8.sort(key=lambda e: e[0])
+    t += emit_dispatch('sem8', all8, 3, 'P3') + '\nend KV.Gen\n'
+    write_if_changed(os.path.join(out_dir, 'Sem8.lean'), t)
 
     # --- bp operators of logic.py
     t = HEADER
